@@ -31,19 +31,29 @@ func init() {
 func runC14(c *core.Ctx) {
 	// the amounts of a partial fill are computed from the order's price in the functions that build
 	// the fill records (a Limit per order touched): no 53-bit intermediate there
-	defer checkFloatPrecisionIn(c, "C14.prec", []string{core.PkgState + "/swap"}, "the functions of the swap module that build fill records", "so the amount computed from the order's price (a ratio of two amounts of up to 10^33) is off by far more than the one unit of rounding a fill may cost its owner", 4,
-		func(fn *ssa.Function) bool {
+	defer func() {
+		scope := map[*ssa.Function]bool{}
+		for _, fn := range c.SrcFuncs(core.PkgState + "/swap") {
+			builds := false
 			for _, b := range fn.Blocks {
 				for _, in := range b.Instrs {
 					if al, ok := in.(*ssa.Alloc); ok {
 						if n := namedOf(al.Type()); n != nil && n.Obj().Name() == "Limit" {
-							return true
+							builds = true
 						}
 					}
 				}
 			}
-			return false
-		})
+			if builds {
+				scope[fn] = true
+				for _, h := range c.Helpers(fn) {
+					scope[h] = true
+				}
+			}
+		}
+		checkFloatPrecisionIn(c, "C14.prec", []string{core.PkgState + "/swap"}, "the functions of the swap module that build fill records (and their helpers)", "so the amount computed from the order's price (a ratio of two amounts of up to 10^33) is off by far more than the one unit of rounding a fill may cost its owner", 2,
+			func(fn *ssa.Function) bool { return scope[fn] })
+	}()
 	defer checkMinimumVolume(c, "C14.minvol")
 	var m *RunModel
 	for _, lm := range LiveModels(c, "C14.owner") {
